@@ -142,6 +142,9 @@ def run_batch(binpath, scratch, prop, tier, seed0, total, legs, wall_budget, ext
     return [r["result"] for r in results], crashes, timed_out
 
 
+EXTRA_ENV = {}
+
+
 def replay_once(binpath, scratch, rf, want_log=False, timeout=120):
     """Run one replay file in a fresh process. Returns (result or None, crashed, stderr, decisions)."""
     tag = hashlib.sha1(json.dumps(rf["decisions"]).encode()).hexdigest()[:12] + ("-%d" % os.getpid()) + ("-%d" % int(time.time() * 1e6))
@@ -150,6 +153,7 @@ def replay_once(binpath, scratch, rf, want_log=False, timeout=120):
     with open(rp, "w") as f:
         json.dump(rf, f)
     env = build.goenv({"SIM_MODE": "replay", "SIM_REPLAY": rp, "SIM_OUT": outp, "GOMAXPROCS": "2", "GOTRACEBACK": "single"})
+    env.update(EXTRA_ENV)
     if want_log:
         env["SIM_LOG"] = "1"
     try:
@@ -290,6 +294,7 @@ def main(argv=None):
 def _main(args, prop, cfg, tier, seed0, t0, scratch):
     if cfg.get("custom"):
         return cfg["custom"](args, prop, cfg, tier, seed0, t0, scratch)
+    EXTRA_ENV.update(cfg.get("env") or {})
     build.prepare(scratch, instrument=cfg.get("instrument", True))
     binpath = os.path.join(scratch, cfg["pkg"] + ".test")
     bt = build.build_test(scratch, cfg["pkg"], binpath, use_overlay=cfg.get("overlay", True))
@@ -314,7 +319,7 @@ def _main(args, prop, cfg, tier, seed0, t0, scratch):
 
     total = args.runs or cfg["runs"][tier]
     budget = cfg.get("budget", {"quick": 240, "thorough": 3600})[tier]
-    results, crashes, timed_out = run_batch(binpath, scratch, prop, tier, seed0, total, legs, budget)
+    results, crashes, timed_out = run_batch(binpath, scratch, prop, tier, seed0, total, legs, budget, extra_env=cfg.get("env"))
     wall_runs = time.time() - t0
     known = load_known()
 
